@@ -7,6 +7,7 @@ from hypothesis import strategies as st
 from ..sysprop import system_subcheck
 from ..monitors.trackers import TrackerTruth
 from .. import strategies as S
+from .. import observe as O
 from ..runner import SubCheck
 from . import common
 
@@ -97,6 +98,64 @@ def hist_execute(case):
             "classes": ["end_on_timestamp" if on_ts else "end_off_timestamp", "start_on_timestamp" if a in case["times"] else "start_off_timestamp"]}
 
 
+def reused_tracker_subcheck():
+    """The same tracker *object* handed to a second Simulation: Simulation.__init__ calls tracker.initialise(), which must start it afresh
+    whatever state the first run left behind (e.g. customers still blocked when it stopped)."""
+    import ciw
+    from .. import build as B
+    from ..sysprop import Activity
+    prof = common.full_profile("C17", max_nodes=3, plans=("max_time",), resumptions=(1, 1), horizon=(4.0, 10.0), budget=400, load="heavy", caps=(0, 1, 1, 2))
+    prof.required = {"tracker"}
+    prof.weights.update({"capacity": 0.8, "cc_after": 0.3, "reneging": 0.3, "ps": 0.0, "slotted": 0.05})
+
+    def execute(spec):
+        ciw.seed(spec["seed"])
+        tracker = B.make_tracker(spec["tracker"])
+        b1 = B.build(spec)
+        kw1 = dict(b1.sim_kwargs)
+        kw1["tracker"] = tracker
+        first = O.MonSimulation(b1.network, monitors=(), budget=400, obs=False, ps_nodes=b1.ps_nodes, **kw1)
+        blocked_left = 0
+        try:
+            first.simulate_until_max_time(spec["plan"]["T"][0])
+        except Exception:
+            pass
+        blocked_left = sum(1 for nd in first.transitive_nodes for i in O.customers(nd) if i.is_blocked)
+        ciw.seed(spec["seed"] + 1)
+        b2 = B.build(spec)
+        kw2 = dict(b2.sim_kwargs)
+        kw2["tracker"] = tracker
+        act = Activity()
+        mon = TrackerTruth(spec)
+        second = O.MonSimulation(b2.network, monitors=[act, mon], budget=400, obs=False, ps_nodes=b2.ps_nodes, **kw2)
+        second.built = b2
+        second.plan_steps = [("max_time", spec["plan"]["T"][0])]
+        second.cur_step = second.plan_steps[0]
+        second.call_index = 0
+        res = O.CaseResult()
+        try:
+            second.simulate_until_max_time(spec["plan"]["T"][0])
+            res.calls_completed = 1
+        except O.Budget:
+            res.budget_hit = True
+        except Exception as e:
+            if O.harness_fault(e):
+                raise
+            res.aborted = O.exception_bucket(e)
+        res.n_events = second.n_events
+        act.finish(second, res)
+        mon.finish(second, res)
+        a = dict(act.a)
+        a.update({k: v for k, v in getattr(mon, "activity", {}).items()})
+        return {"violations": list(second.violations), "activity": {k: v for k, v in a.items() if v}, "aborted": res.aborted, "budget_hit": res.budget_hit,
+                "events": second.n_events, "nontrivial": a.get("events", 0) >= 20 and blocked_left >= 1 and a.get("blocked_seen", 0) >= 1,
+                "classes": ["first_run_stopped_with_blocked_customers"] * (blocked_left >= 1) + ["tracker_" + spec["tracker"]["kind"]],
+                "score": second.n_events}
+    return SubCheck("reused_tracker", execute, strategy=S.netspec(prof), n={"quick": 3600, "thorough": 20000}, kind="system",
+                    rule="tracker-truth monitor on a second Simulation that is given the tracker object of a first, stopped run; "
+                         "non-trivial = the first run stopped with blocked customers and the second run blocks too")
+
+
 def subchecks(tier):
     prof = common.full_profile("C17", max_nodes=3)
     prof.required = {"tracker"}
@@ -108,6 +167,7 @@ def subchecks(tier):
                         lambda spec: [TrackerTruth(spec)], lambda a, spec, res: a.get("blocked_seen", 0) >= 1 and a.get("rec_interrupted_service", 0) >= 1,
                         classes=classes, n={"quick": 4800, "thorough": 30000},
                         rule="pre-emptive schedules x blocking region with every tracker (MatrixBlocking excluded there: F6h)"),
+        reused_tracker_subcheck(),
         SubCheck("state_probabilities", hist_execute, strategy=hist_case(), n={"quick": 24000, "thorough": 80000}, kind="unit", is_spec=False,
                  rule="histories of 1-7 states on a dyadic time grid x finite windows with endpoints on / between / beyond timestamps; non-trivial = >= 3 states"),
     ]
